@@ -258,12 +258,17 @@ func vC07Legacy(t *testing.T, out *vEmitter) {
 		if err != nil {
 			t.Fatalf("legacy conversion: %v", err)
 		}
+		// every htpasswd file keeps an inotify instance for the life of the process (the kernel allows 128 per user):
+		// the thorough tier exercises the basic-auth session source on every sixth combination only
+		useHtp := !vThorough() || mask%6 == 0 || mask == 511
 		e := vTryNewEnv(t, vEnvCfg{mod: func(o *options.Options) {
 			o.InjectRequestHeaders = conv.InjectRequestHeaders
 			o.InjectResponseHeaders = conv.InjectResponseHeaders
 			o.LegacyPreferEmailToUser = conv.LegacyPreferEmailToUser
 			o.SkipAuthRoutes = []string{"GET=^/public"}
-			o.HtpasswdFile = htp
+			if useHtp {
+				o.HtpasswdFile = htp
+			}
 		}})
 		if e == nil {
 			out.Stat("legacy_configs_rejected_by_validation", 1)
@@ -307,6 +312,9 @@ func vC07Legacy(t *testing.T, out *vEmitter) {
 			{"cookie", b, "/app", nil, sess},
 			{"bypass", anon, "/public/x", nil, nil},
 			{"basic", anon, "/app", [][2]string{{"Authorization", basic}}, &sessionsapi.SessionState{User: "htuser"}},
+		}
+		if !useHtp {
+			reqs = reqs[:2]
 		}
 		for _, r := range reqs {
 			hs := append(append([][2]string(nil), spoof...), r.extra...)
